@@ -774,8 +774,11 @@ def slice_mesh_from_colorscale(trace, axis, colorscale):
     """Slice mesh3d obj by axis and colorsale. Return single mesh dict with according
     facecolor argument."""
     cs = colorscale
-    origs = np.array(list(dict.fromkeys([v[0] for v in cs])))[1:-1]
-    colors = list(dict.fromkeys([v[1] for v in cs]))
+    positions = list(dict.fromkeys([v[0] for v in cs]))
+    origs = np.array(positions)[1:-1]
+    # one color per slab between consecutive positions (the color starting at the lower
+    # boundary), also when neighboring slabs have the same color
+    colors = [[v[1] for v in cs if v[0] == pos][-1] for pos in positions[:-1]]
     vr = np.array([v for k, v in trace.items() if k in "xyz"]).T
     tr = np.array([v for k, v in trace.items() if k in "ijk"]).T
     axis = axis / np.linalg.norm(axis)
